@@ -621,7 +621,10 @@ class DatasetWorld(object):
         else:
             ctx.check(m.sparse_templates.cols is None, 'attr-template-cols-dense')
         eq('wm', m.wm, self.ref.wm)
-        eq('wmi', m.wmi, self.ref.wmi, exact=False)
+        # the default inverse is computed by the loader in the precision of the stored matrix
+        wtol = 1e-4 if getattr(g, 'wm_dtype', 'float64') == 'float32' else 1e-9
+        ctx.check(m.wmi is not None and ref.close(m.wmi, self.ref.wmi, wtol), 'attr-wmi',
+                  lambda: {'got': _desc(m.wmi), 'expected': _desc(self.ref.wmi)})
         if self.similar_present:
             sim = g.similar.astype('float32') if cfg['seed'] % 2 else g.similar
             eq('similar_templates', m.similar_templates, ref.scrub(sim), exact=False)
